@@ -17,6 +17,15 @@ func (s *seqRT) ruleOverlap() {
 	c.min("SEQ.OVERLAP", 4)
 	c1, k1 := AV(Sym{Name: "c", NN: true}), AV(Sym{Name: "k", NN: true})
 	c2, k2 := AV(Sym{Name: "c2", NN: true}), AV(Sym{Name: "k2", NN: true})
+	uses1 := func(evs []Event) string {
+		for _, e := range evs {
+			x := e.String()
+			if strings.Contains(x, "⟨c⟩") || strings.Contains(x, "⟨k⟩") || strings.HasPrefix(e.Target, "c.") {
+				return x
+			}
+		}
+		return ""
+	}
 	uses2 := func(evs []Event) string {
 		for _, e := range evs {
 			x := e.String()
@@ -47,6 +56,18 @@ func (s *seqRT) ruleOverlap() {
 				if K1 == nil || len(o2) != 1 {
 					err = fmt.Errorf("activations do not hand out a continuation")
 				} else {
+					// the second activation's own continuation must act on the second activation
+					ev2 := observable(o2[0].St.Events[len(o1[0].St.Events):])
+					if len(ev2) == 1 && len(ev2[0].Args) == 2 {
+						K2 := ev2[0].Args[1]
+						for _, name := range roles.names {
+							for _, o := range in.Apply(o2[0].St, K2, []AV{roles.byName[name], Sym{Name: "v"}}) {
+								if u := uses1(observable(o.St.Events[len(o2[0].St.Events):])); u != "" {
+									err = fmt.Errorf("the continuation handed out by a second activation of the same Combine value (signal %s) acts on the first activation's state: %s", name, u)
+								}
+							}
+						}
+					}
 					for _, name := range roles.names {
 						o3 := in.Apply(o2[0].St, K1, []AV{roles.byName[name], Sym{Name: "v"}})
 						for _, o := range o3 {
